@@ -32,6 +32,10 @@ func init() {
 			obs = append(obs, c.AppendOwnership("nbt", "nbt/dynbt")...)
 			obs = append(obs, c.TagWidths("nbt", "nbt/dynbt")...)
 			obs = append(obs, c.ClauseConsistency("nbt", "nbt/dynbt")...)
+			obs = append(obs, c.ExactBeforeFold("nbt", "nbt.(*Decoder).unmarshal")...)
+			obs = append(obs, c.ListElementTag("nbt")...)
+			obs = append(obs, c.PayloadOnEveryPath("nbt")...)
+			obs = append(obs, c.ZeroValueType("nbt")...)
 			obs = append(obs, filterObs(c.RawRead(), func(o core.Ob) bool { return strings.HasPrefix(o.Key, "nbt.") || strings.HasPrefix(o.Key, "nbt/") })...)
 			return obs
 		},
@@ -48,6 +52,11 @@ func init() {
 			obs = append(obs, c.FreshElements("nbt", "nbt/dynbt")...)
 			obs = append(obs, c.FixedBufferCopies("nbt", "nbt/dynbt")...)
 			obs = append(obs, c.TagWidths("nbt", "nbt/dynbt")...)
+			obs = append(obs, c.ExactBeforeFold("nbt", "nbt.(*Decoder).unmarshal")...)
+			obs = append(obs, c.ListElementTag("nbt")...)
+			obs = append(obs, c.PayloadOnEveryPath("nbt")...)
+			obs = append(obs, c.ZeroValueType("nbt")...)
+			obs = append(obs, c.EscapePassOrder("nbt")...)
 			return obs
 		},
 	}
@@ -58,6 +67,10 @@ func init() {
 			obs = append(obs, c.SNBTLiteralWidths()...)
 			obs = append(obs, c.RuneTruncation("nbt")...)
 			obs = append(obs, c.ScannerDetours("nbt")...)
+			obs = append(obs, c.SNBTFloatFormat("nbt")...)
+			obs = append(obs, c.SNBTTextThroughParser("nbt")...)
+			obs = append(obs, c.SNBTBareStrings("nbt")...)
+			obs = append(obs, c.EscapePassOrder("nbt")...)
 			obs = append(obs, c.StringIndexGuards(pkgPred("nbt"))...)
 			textDispatch := ""
 			if ws := c.dispatchOf("StringifiedMessage", false); ws != nil {
@@ -95,6 +108,7 @@ func init() {
 			obs := c.CipherWiring()
 			obs = append(obs, c.NoRetainedParamSlices("net/CFB8")...)
 			obs = append(obs, c.BlockSlices("net/CFB8")...)
+			obs = append(obs, c.CFB8Ring("net/CFB8")...)
 			obs = append(obs, c.ConnInit()...)
 			return obs
 		},
@@ -104,8 +118,10 @@ func init() {
 		Run: func(c *Ctx) []core.Ob {
 			obs := c.BitStorageGuards()
 			obs = append(obs, c.BitStorageFixSibling()...)
+			obs = append(obs, c.BitStorageDerivedRefreshed()...)
 			obs = append(obs, c.BitWidthInverse()...)
 			obs = append(obs, c.BitStorageReadLength()...)
+			obs = append(obs, filterObs(c.AcceptsLegitLengths(), func(o core.Ob) bool { return strings.Contains(o.Key, "BitStorage") })...)
 			obs = append(obs, c.wireObs(func(p, t string) bool { return p == "level" && t == "BitStorage" })...)
 			in := c.reachFromTypes("level", []string{"BitStorage"}, "NewBitStorage")
 			obs = append(obs, c.TLGObs(in, in, false)...)
